@@ -616,3 +616,27 @@ n('C09', 'get_receiver: NaN mask applied before the accumulation', FIELDS,
   "    resp = np.zeros(xi.shape[0], dtype=field.field.dtype)\n    resp[(xi[:, 0] < grid.nodes_x[1])] = np.nan\n")
 n('C09', '_point_vector: factor order', FIELDS,
   "        s[ix1, iy, iz] = rx*ey*ez", "        s[ix1, iy, iz] = ez*rx*ey")
+
+# ------------------------------------------------------------------- C10
+m('C10', '_dipole_vector: upper y index weighted with ey', FIELDS,
+  "                    vfield.fx[ix, iy+1, iz] += ry*ez*x_len",
+  "                    vfield.fx[ix, iy+1, iz] += ey*ez*x_len", 'C10.DV')
+m('C10', 'get_source_field: -s mu0 unguarded', FIELDS,
+  "    if frequency is not None:  # Not if the vector is wanted.\n        sfield.field *= -sfield.smu0",
+  "    if True:  # Not if the vector is wanted.\n        sfield.field *= -sfield.smu0",
+  'C10.SF')
+m('C10', 'get_source_field: sign of s mu0', FIELDS,
+  "        sfield.field *= -sfield.smu0", "        sfield.field *= sfield.smu0", 'C10.SF')
+m('C10', '_dipole_vector: fx scaled by the y extent', FIELDS,
+  "    vfield.fx *= dxdydz[0]", "    vfield.fx *= dxdydz[1]", 'C10.DV')
+m('C10', 'point_to_square_loop: half diagonal sqrt(area)/2', ELEC,
+  "    half_diag = np.sqrt(area/2)", "    half_diag = np.sqrt(area)/2", 'C10.GE')
+m('C10', 'point_to_square_loop: left-handed loop', ELEC,
+  "    xyz_hor = rotation(source[3]+90.0, 0.0)*half_diag",
+  "    xyz_hor = rotation(source[3]-90.0, 0.0)*half_diag", 'C10.GE')
+m('C10', 'point_to_dipole: electrodes swapped', ELEC,
+  "    return point[:3] + np.array([-xyz, xyz])", "    return point[:3] + np.array([xyz, -xyz])",
+  'C10.GE')
+n('C10', '_dipole_vector: factor order', FIELDS,
+  "                    vfield.fx[ix, iy+1, iz] += ry*ez*x_len",
+  "                    vfield.fx[ix, iy+1, iz] += x_len*ez*ry")
